@@ -66,6 +66,14 @@ CLAIMED = {
              "nested struct/union/array types with bit-fields: the static image cproc emits (every byte incl. padding, size, alignment, relocation targets and addends) "
              "must equal clang's object on three targets; the same initialiser on an automatic object must yield the leaf values the reference compilers print.",
         note="clang 14 is the image oracle (gcc -pedantic-errors filters invalid generated code); anonymous relocation targets are compared by content; automatic half excludes unions (unspecified padding bytes)."),
+    "C04": dict(
+        category="exploration", design_ref="DESIGN.md 3/C04",
+        engine="hypothesis",
+        technique="model-based property testing: generated constant expressions with values and types predicted by an independent C arithmetic model, observed through every folding context (two-directional: accepted with the right value, rejected with the wrong one); clang arbitrates a mismatch",
+        text="Generated constant expressions (all literal bases/suffixes/magnitudes, float literals, character and enum constants, sizeof/_Alignof/offsetof, all casts and operators) are "
+             "folded by cproc in static initialisers, static assertions, array bounds, enumerators, case labels, bit-field widths, _Alignas and ?: conditions on three targets; "
+             "emitted bytes must equal the model's value in the model's type, the negated assertion and a duplicate case label must be rejected; address constants are compared as (symbol, offset).",
+        note="cmodel.py is the oracle (cross-validated with gcc/clang through C01's run-time twin 'exprs' and by clang arbitration of every mismatch); thread-local initialisers use the same emitdata path and are covered by C07."),
 }
 
 NOT_YET = "check not built yet in this round (planned per DESIGN.md section 10); no claim is made"
